@@ -16,7 +16,8 @@ LEVEL_TEXT = ("Part (a): byte strings the gate must reject are sent in batches t
               "code replaced by unknown codes (all 65,527 in thorough) must produce no device, no exception and one 'unknown' "
               "warning each. Random content is sampled.")
 RULE = ("case = batch of datagram specs (kind, length, prefix, pattern seed | capture index and cut | hex) or (base frame, model code); "
-        "non-trivial (a) = length within +-3 of an accepted length or correct magic, (b) = all; distinct by (kind, length, prefix, code).")
+        "non-trivial (a) = length within +-3 of an accepted length or correct magic, (b) = all; distinct by (kind, length, prefix, code)."
+        " Also enumerated: every single-byte extension (256 values) of a frame of each accepted length; junk of every length 0..400 that carries the magic, a header length field equal to its real length, a known model code and (every other one) a valid packet signature; all 'neighbour' model codes (byte-swapped, +-1, single-bit flips, single-byte variants of the nine known codes).")
 ASSUMPTIONS = [
     "a warning counts when it is a Python warning or an aioswitcher log record >= WARNING whose text contains 'unknown' (case-insensitive)",
     "frames that pass the gate with a known model code but undecodable fields are outside this statement (C07 covers their isolation)",
